@@ -391,6 +391,11 @@ def worker_root():
 
 def _call(args):
     fn, shard = args
+    # every shard carries the check's deadline as its last element: a shard that has not started when the
+    # deadline passes is skipped and reported as not completed (the bound is then not called exhaustive)
+    dl = shard[-1] if isinstance(shard, tuple) and shard else shard
+    if isinstance(dl, float) and time.time() > dl:
+        return {'evaluations': 0, 'complete': False, 'new_states': [], 'skipped': 1}
     try:
         return fn(shard)
     except Exception:
